@@ -63,8 +63,14 @@ where
         walked_cstore
     }
 
-    /// Add new constraint `c` while keeping the store normalized
-    pub fn push_and_normalize(&mut self, newc: Rc<dyn Constraint<U, E>>) {
+    /// Add new constraint `c` while keeping the store normalized. Returns the constraints that
+    /// normalization dropped as redundant: stored ones implied by the new constraint, or the
+    /// new constraint itself when a stored one already implies it.
+    pub fn push_and_normalize(
+        &mut self,
+        newc: Rc<dyn Constraint<U, E>>,
+    ) -> Vec<Rc<dyn Constraint<U, E>>> {
+        let mut dropped = vec![];
         if let Some(tree_newc) = newc.downcast_ref::<DisequalityConstraint<U, E>>() {
             let mut normalized = HashSet::new();
             let mut redundant = false;
@@ -78,6 +84,8 @@ where
                         normalized.insert(storec);
                     } else if !tree_newc.subsumes(tree_storec) {
                         normalized.insert(storec);
+                    } else {
+                        dropped.push(storec);
                     }
                 } else {
                     normalized.insert(storec);
@@ -85,17 +93,19 @@ where
             }
             self.0 = normalized;
             if redundant {
-                return;
+                dropped.push(newc);
+                return dropped;
             }
         }
         self.insert(newc);
+        dropped
     }
 
     /// Remove redundant constraints from the store
     pub fn normalize(self) -> ConstraintStore<U, E> {
         let mut normalized_store = ConstraintStore::new();
         for storec in self.0.into_iter() {
-            normalized_store.push_and_normalize(storec.into());
+            let _ = normalized_store.push_and_normalize(storec.into());
         }
         normalized_store
     }
